@@ -1168,10 +1168,12 @@ func c07Configs(run *vfRun) []c07Cfg {
 
 func TestVerif_C07(t *testing.T) {
 	run := vfNewRun(t, "C07", "exploration")
-	run.SetRule("configurations: legacy header flags (all 2^9 vectors x password on/off in thorough, covering sample of 64 in quick) + seeded random structured header lists via alpha config " +
-		"(claim/prefix/basicAuthPassword/secret value|file|env, every claim, preserve on/off, strip-only entries, non-canonical names); sessions: 8 cookie-login identities (fields empty/multi/Unicode/separators), " +
-		"3 bearer JWTs, htpasswd Basic + sign-in form (subset of instances), none, invalid cookie; endpoints: proxied, bypassed (--skip-auth-route), /oauth2/auth; " +
-		"8 spoof styles over the wire (case, repetition, comma-joined, look-alike). cell = (option bucket, session source/class, endpoint, spoof style); non-trivial = at least one header configured")
+	run.SetRule("configurations: legacy header flags (all 2^9 vectors x password on/off in thorough, covering sample of 64 in quick) + 3 fixed and 40/200 seeded random structured header lists via alpha config " +
+		"(claim/prefix/basicAuthPassword/secret value|file|env, every claim incl. created_at/expires_on, preserve on/off, strip-only entries, non-canonical names, several values per header); " +
+		"sessions: 8 cookie-login identities (fields empty/multi/Unicode/separators; quick: the standard one + a rotating 3), 3 bearer JWTs, htpasswd Basic + sign-in form (16/32 instances, those injecting time claims first), none, invalid cookie; " +
+		"endpoints: proxied (methods rotate), bypassed (--skip-auth-route), /oauth2/auth (202/401), /oauth2/auth?allowed_groups=... (403); " +
+		"9 client header styles over the wire (canonical/lower/UPPER/mIxEd, x1-x3, comma-joined, case mix, as-configured + '_' look-alike, names listed in Connection). " +
+		"cell = (option bucket, session source/class, endpoint, spoof style); non-trivial = at least one header configured")
 	run.Assume("header names configured only for responses, names not configured at all and look-alikes with '_' are counted, not judged",
 		"pass-basic-auth without basic-auth-password: Authorization is not treated as a configured request name",
 		"text of created_at / expires_on is not predicted (one non-empty value when the session has that timestamp; absent for htpasswd Basic sessions)",
